@@ -63,6 +63,17 @@ Theorem ray_eq_brute : forall depth boxes t ry r,
 Proof. exact ray_eq_brute_thm. Qed.
 Print Assumptions ray_eq_brute.
 
+(* TraverseIntersectingRay with an iterator that narrows the range (nearest-hit search): for every
+   iterator that only shrinks the range and never cuts into rl, every visited element passes the
+   bounds test for the caller's range and every element that passes it for rl is visited *)
+Theorem traverse_sandwich_narrowing : forall it ry rl,
+  (forall i r, rsub (it i r) r) -> (forall i r, rsub rl r -> rsub rl (it i r)) ->
+  forall t r, inv t -> rsub rl r ->
+    (forall i, In i (traverse it t ry r) -> In i (scan (fun b => slab b ry r) t)) /\
+    (forall e, In e (tree_elems t) -> slab (e_box e) ry rl = true -> In (e_idx e) (traverse it t ry r)).
+Proof. exact traverse_sandwich. Qed.
+Print Assumptions traverse_sandwich_narrowing.
+
 (* ClosestPoint.  ekey i / cpt i = element i's own squared distance (scaled by kscale) and closest
    point for the query q.  Hypothesis on the elements: no element is nearer than its own box (true
    as soon as the element's closest point lies in its box: closest_in_box_suffices below).
